@@ -635,7 +635,33 @@ def rule_verification_failure_class(ctx: Ctx, rep: Report) -> None:
                "an infinite K is a failed verification, raised as BTClibRuntimeError before any coordinate is taken" if inf and cls_ok and not early else
                ("K at infinity is not refused explicitly" if not inf else "K at infinity is refused in another class than the delegated arm's" if not cls_ok else
                 f"`{norm(early[0])}` is reached with a K that may be infinite: the coordinate helper's BTClibValueError leaves where the delegated arm raises BTClibRuntimeError"))
-    rep.floor(rule, 2)
+    # key recovery: the bindings have one failure (a ValueError, converted); the Python arm's own raises should be of that class
+    def own_classes(q: str, in_handlers: bool) -> set[str]:
+        fi = ctx.func(q)
+        out = set()
+        for r in own_nodes(fi.node):
+            if not isinstance(r, ast.Raise) or r.exc is None:
+                continue
+            inside = any(isinstance(a, ast.ExceptHandler) for a in _ancestors_of(r))
+            if inside != in_handlers:
+                continue
+            c = r.exc.func if isinstance(r.exc, ast.Call) else r.exc
+            out.add(str(norm(c)).split(".")[-1])
+        return out
+    py = own_classes("btclib.ecc.dsa._recover_pub_key_", False)
+    bd = own_classes("btclib.ecc.dsa._libsecp256k1_recover_sec_", True)
+    extra = sorted(py - bd - {"BTClibTypeError"})
+    rep.ob(rule, "btclib.ecc.dsa.recover_pub_key_:infinite_Q_class", not extra, ctx.func("btclib.ecc.dsa._recover_pub_key_").where(),
+           f"both arms fail in {sorted(bd)}" if not extra else
+           f"the Python arm also raises {extra} (a recovered key at infinity, a key that does not verify) where the libsecp256k1 arm can only answer {sorted(bd)}: one signature, two exception classes")
+    rep.floor(rule, 3)
+
+
+def _ancestors_of(n: ast.AST):
+    n = parent(n)
+    while n is not None:
+        yield n
+        n = parent(n)
 
 
 def rule_predicate_args(ctx: Ctx, rep: Report) -> None:
